@@ -770,7 +770,7 @@ for _d in SCRIPTS:
 class InterleaveInvariant:
     """loop 0 of Assertion.interleave_values:  for i in range(1, N).
     Invariant at the head of iteration i (1 <= i <= N):
-      i_s + i_m + i_b = i,  0 <= i_* <= n_*,  r_* = (n_* - i_*)/n_* (0 for an empty class; r_big for n_big >= 1),
+      i_s + i_m + i_b = i,  0 <= i_* <= n_*,  r_* = (n_* - i_*)/n_* (0 for an empty class),
       and among x[0..i) exactly i_s entries equal `small`, i_m equal `med`, i_b equal `big` (ghost counts)."""
 
     def __init__(self, S, ns, nm, nb, small, med, big):
@@ -797,7 +797,7 @@ class InterleaveInvariant:
                                     icmp(">=", i_b, 0), icmp("<=", i_b, nb))),
             ("r_small", xsame(rs, xite(icmp(">", ns, 0), frac(ns, i_s), XR.const(0)))),
             ("r_med", xsame(rm, xite(icmp(">", nm, 0), frac(nm, i_m), XR.const(0)))),
-            ("r_big", xsame(rb, frac(nb, i_b))),
+            ("r_big", xsame(rb, xite(icmp(">", nb, 0), frac(nb, i_b), XR.const(0)))),
             ("ghost counts", band(icmp("==", cnt[0].at(i), i_s), icmp("==", cnt[1].at(i), i_m), icmp("==", cnt[2].at(i), i_b))),
         ]
 
@@ -829,7 +829,7 @@ class InterleaveInvariant:
             frac = lambda n, k: xdiv_np(XR.const(mkint(isub(n, k))), XR.const(n))
             env.vars["r_small"] = xite(icmp(">", ns, 0), frac(ns, st_["i_small"]), XR.const(0))
             env.vars["r_med"] = xite(icmp(">", nm, 0), frac(nm, st_["i_med"]), XR.const(0))
-            env.vars["r_big"] = frac(nb, st_["i_big"])
+            env.vars["r_big"] = xite(icmp(">", nb, 0), frac(nb, st_["i_big"]), XR.const(0))
             for r_ in ("r_small", "r_med", "r_big"):
                 env.vars[r_].npk = False
             env.vars["x"] = x
@@ -858,7 +858,7 @@ class InterleaveInvariant:
         frac = lambda n, k: xdiv_np(XR.const(mkint(isub(n, k))), XR.const(n))
         env.vars["r_small"] = xite(icmp(">", ns, 0), frac(ns, st_["i_small"]), XR.const(0))
         env.vars["r_med"] = xite(icmp(">", nm, 0), frac(nm, st_["i_med"]), XR.const(0))
-        env.vars["r_big"] = frac(nb, st_["i_big"])
+        env.vars["r_big"] = xite(icmp(">", nb, 0), frac(nb, st_["i_big"]), XR.const(0))
         cnt = self.counts(x)
         self.final_counts = cnt
         for nm_, g in self.inv(env.vars, iterm(N), x, cnt):
@@ -869,7 +869,8 @@ class InterleaveInvariant:
 def interleave_values_post(S, I, variant):
     ns = S.integer("n_small", lo=0)
     nm = S.integer("n_med", lo=0)
-    nb = S.integer("n_big", lo=1)            # K7 (known finding, bounded case interleave_values): n_big = 0 divides by zero
+    nb = S.integer("n_big", lo=0)            # (n_big = 0 was K7: division by zero; repaired by fix 4c5541d, now part of the proof)
+    ctx().assume(icmp(">=", iadd(iadd(ns, nm), nb), 1))       # a non-empty population
     small = S.real("small")
     med = S.real("med", lo_strict=small)
     big = S.real("big", lo_strict=med)
